@@ -1208,7 +1208,9 @@ func (in *Interp) compositeLit(st *State, cl *ast.CompositeLit) Val {
 		}
 		return o
 	}
-	if _, ok := t.Underlying().(*types.Slice); ok {
+	_, isSlice := t.Underlying().(*types.Slice)
+	_, isArray := t.Underlying().(*types.Array)
+	if isSlice || isArray {
 		sv := SliceV{Len: Const(int64(len(cl.Elts)))}
 		for _, el := range cl.Elts {
 			sv.Elems = append(sv.Elems, in.eval(st, el))
